@@ -2,8 +2,9 @@
    branch for branch: the clamps, the "all / all but one / at least two unknown" cases, the
    four nested candidate loops with their float bounds, the fill-up of every candidate, the
    classic-mode shifts by priority, and the accuracy-free branch.
-   Integers are unbounded Z (u32 in the code: see `mania_small` in the proofs for the
-   no-overflow guard), floats are the kernel's binary64.  Definitions only. *)
+   Integers are unbounded Z (u32 in the code; every u32 intermediate is at most 123 * (objects +
+   hold notes), so the two agree below ~10 million objects — not proved, stated as a limit in
+   DESIGN.md), floats are the kernel's binary64.  Definitions only. *)
 From Coq Require Import ZArith List Bool Floats.
 From V Require Import F64 Gradual GenState.
 Import ListNotations.
